@@ -50,7 +50,7 @@ MANIFEST = {
                  "regenerated tables and inventories and a differential rig",
     "design_ref": "5/C18",
 }
-MODULES = ["PrimaiteModel.Props.C18", "PrimaiteModel.Props.C18Accept", "PrimaiteModel.Props.C18Float", "PrimaiteModel.Props.C18Step"]
+MODULES = ["PrimaiteModel.Props.C18", "PrimaiteModel.Props.C18Accept", "PrimaiteModel.Props.C18Float", "PrimaiteModel.Props.C18Step", "PrimaiteModel.Props.C18Chan"]
 EXE = "drv_c18"
 SHRINK_PER_SIG = 2      # failing traces minimised per distinct presumptive signature
 SHRINK_WALL = 40.0      # seconds of minimisation after which further failing traces are reported unminimised
@@ -147,18 +147,33 @@ def run(ctx: Ctx):
     for k in range(ctx.scale(8, 120)):
         cases.append((f"scn:{k}", rig.gen_scenario_case(srng, max_steps=ctx.scale(25, 60))))
     results, lines_all, bounds = [], [], []
+    unreadable: List[str] = []
     for name, case in cases:
         try:
             r = rig.run_impl(case, inv)
         except rig.InexactLoad as e:
             ctx.oblige("loads and sizes are whole byte counts (float sums exact)", "correspondence", False, f"{name}: {e}")
             r = None
+        except Exception as e:
+            # the rig failed while driving / reading the implementation (a container keyed or shaped differently, an attribute
+            # gone): a broken tie, reported as such; the other cases go on and the search decides
+            import traceback
+            tb = traceback.extract_tb(e.__traceback__)[-1]
+            unreadable.append(f"{name}: {type(e).__name__}: {e} ({tb.filename.split('/')[-1]}:{tb.lineno})")
+            r = None
+        if r is not None:
+            for pr in r.get("read_problems", []):
+                if pr not in unreadable:
+                    unreadable.append(pr)
         results.append(r)
         if r is None:
             bounds.append((len(lines_all), 0))
             continue
         bounds.append((len(lines_all), len(r["lines"]) + 1))
         lines_all += r["lines"] + ["reset"]
+    ctx.oblige("the rig reads the implementation's bookkeeping as the model assumes it (loads per link, airspace load per "
+               "frequency in hz; no case lost to an exception of the rig)", "correspondence", not unreadable,
+               "; ".join(unreadable[:4]) + (f" (+{len(unreadable) - 4} more)" if len(unreadable) > 4 else ""))
     model_all = run_driver(EXE, lines_all)
     agree = 0
     total = 0
@@ -212,6 +227,8 @@ def run(ctx: Ctx):
             caps = dict(case["topo"]["cap"])
             if "WIFI_2_4" in case["topo"]["freqs"] and caps.get(rig.ALT_NAME) != caps.get("WIFI_2_4"):
                 ctx.count("topo:wireless-two-names-different-capacities")
+        if "topo" in case and case["topo"].get("aliased_channel_family"):
+            ctx.count("family:aliased-channel (two names on one hz, both send in one tick)")
         maxdepth = max(maxdepth, d)
         ctx.count(f"depth:{min(d, 6)}")
         ctx.count("topo:" + (case["topo"]["kind"] if "topo" in case else "scenario:" + case["scenario"]["file"]))
